@@ -118,8 +118,12 @@ enum Op {
 /// a byte string as one little-endian numeral: (B len value), far cheaper for Coq to parse than a list of numerals
 fn cb(b: &[u8]) -> String {
     if b.is_empty() { return "[]".into(); }
-    let rev: Vec<u8> = b.iter().rev().cloned().collect();
-    format!("(B {}%nat {})", b.len(), n_of_be(&rev))
+    let le = |c: &[u8]| { let rev: Vec<u8> = c.iter().rev().cloned().collect(); n_of_be(&rev) };
+    if b.len() <= 8 { return format!("(B {}%nat {})", b.len(), le(b)); }
+    let full = b.len() / 8 * 8;
+    let chunks: Vec<String> = b[..full].chunks(8).map(|c| le(c)).collect();
+    if full == b.len() { format!("(B8 [{}])", chunks.join(";")) }
+    else { format!("(B8 [{}] ++ B {}%nat {})", chunks.join(";"), b.len() - full, le(&b[full..])) }
 }
 fn pc(v: &[u8]) -> Vec<u8> { postcard::to_stdvec(&v.to_vec()).unwrap() }
 fn coq_change(c: &Change) -> String {
